@@ -57,6 +57,8 @@ fn main() {
         "irparse" => suites::irparse(&mut rng, count, &mut out),
         "irrun" => suites::irrun(&mut rng, count, &mut out),
         "e2e" => suites::e2e(&mut rng, count, &mut out),
+        "sv" => suites::smallvec(&mut rng, count, &mut out),
+        "expr" => suites::expr(&mut rng, count, &mut out),
         _ => {
             eprintln!("unknown suite {suite}");
             std::process::exit(2);
